@@ -1,5 +1,6 @@
 """C07: normal forms satisfy their structural postconditions (DESIGN.md §4 C07)."""
 import json
+import re
 from fractions import Fraction
 
 import cfgmodel as M
@@ -9,7 +10,16 @@ from cfgcheck import finitely_ambiguous, decode_grammar, run_jobs
 from common import CoqError, coq_eval_bools
 
 IMPORTS = ("From Coq Require Import List Arith Bool.\nImport ListNotations.\nFrom GV.lib Require Import Semiring.\n"
-           "From GV.model Require Import Cfg Transform Cky Useful.")
+           "From GV.model Require Import Cfg Transform Cky Useful TopDown.")
+
+
+def is_zero_weight(w):
+    if isinstance(w, bool):
+        return not w
+    try:
+        return Fraction(w) == 0
+    except (TypeError, ValueError):
+        return False
 
 
 def shape_lit(g):
@@ -72,6 +82,21 @@ def py_pred(pred, g):
     raise ValueError(pred)
 
 
+def decode_same_names(out):
+    """trimmed grammar with the INPUT's numbering of nonterminals (trimming invents no names)"""
+    V = set(out["V"])
+    tmap = {repr(M.tname(a)): a for a in range(26)}
+
+    def nt(name):
+        m = re.fullmatch(r"'N(\d+)'", name)
+        if not m:
+            raise ValueError(name)
+        return int(m.group(1))
+
+    rules = [[True, nt(h), [["T", tmap[y]] if y in V else ["N", nt(y)] for y in b]] for _, h, b in out["rules"]]
+    return {"S": nt(out["S"]), "nT": 26, "rules": rules}
+
+
 def report(ctx, sr, g, t, pred, og):
     sig = f"{t[0]}:{pred}"
     if ctx.seen(sig):
@@ -117,6 +142,17 @@ def stream(ctx, grammars, sr, hashseed):
                     ctx.violation("sub_trim:start", f"cfg[{M.ntname(t[1])}].trim() (after cfg.trim()) has the start symbol {r['ok']['S']}: it is the trimmed grammar of another start symbol",
                                   {"kind": "shape", "transform": list(t), "pred": "all_useful", "sr": sr, "grammar": g, "original_grammar": g, "output": og})
                 continue
+            if t[0] in ("trim", "sub_trim", "cotrim"):
+                # the rule list (order included) is the one the Coq model of trimming selects
+                try:
+                    og2 = decode_same_names(r["ok"])
+                    gin = {"S": g["S"], "nT": 26, "rules": [[True, h_, b_] for w_, h_, b_ in g["rules"] if not is_zero_weight(w_)]}
+                    mdl = "cotrim" if t[0] == "cotrim" else f"trim_model {t[1] if t[0] == 'sub_trim' else g['S']}%nat"
+                    exprs.append(f"shape_eqb ({mdl} ({shape_lit(gin)} : grammar BoolSR)) ({shape_lit(og2)} : grammar BoolSR)")
+                    meta.append((g, t, "rules-equal-trim-model", og, None))
+                    ctx.count_case((sr, json.dumps(g), TR.tname(t), "rules-equal-trim-model"), nontrivial=len(og["rules"]) > 0)
+                except (ValueError, KeyError):
+                    ctx.dist("trim-model:undecodable")
             pred = TR.POST.get(t[0])
             if pred:
                 exprs.append(pred_expr(pred, og))
@@ -150,12 +186,12 @@ def run(ctx):
         ctx.obligation("translate_cfg", True)
     except TC.Refuse as e:
         ctx.obligation("translate_cfg", False, f"translator refused: {e}")
-    ok, out = ctx.build(["proofs/TrimProofs.vo", "proofs/ShapeProofs.vo", "proofs/UsefulProofs.vo", "model/Useful.vo", "model/Cky.vo"])
+    ok, out = ctx.build(["proofs/TrimProofs.vo", "proofs/ShapeProofs.vo", "proofs/UsefulProofs.vo", "proofs/TopDownTrimProofs.vo", "model/Useful.vo", "model/Cky.vo", "model/TopDown.vo"])
     if ok:
         ctx.prove("props/C07.v")
     else:
         ctx.obligation("coq-build(C07)", False, out[-3000:])
-        ok2, _ = ctx.build(["model/Useful.vo", "model/Cky.vo"])
+        ok2, _ = ctx.build(["model/Useful.vo", "model/Cky.vo", "model/TopDown.vo"])
         if not ok2:
             return
     n = 30 if quick else 300
